@@ -228,6 +228,55 @@ Proof.
   rewrite lstrip_wf; auto. apply desc_join; auto.
 Qed.
 
+
+(* items: blank lines may follow the description; they come back in no description *)
+Lemma wf_idesc_strict : forall d0 conts, wf_idesc d0 conts = true ->
+  exists k, conts = rstrip_blank conts ++ repeat [] k /\ wf_desc d0 (rstrip_blank conts) = true.
+Proof.
+  intros d0 conts H. unfold wf_idesc in H. btrue.
+  destruct (rstrip_blank_split conts) as [k [E _]]. exists k. split; [exact E|].
+  unfold wf_desc. rewrite H, H2, H0. rewrite andb_true_r. simpl.
+  rewrite E in H1. rewrite forallb_app in H1. apply andb_true_iff in H1. destruct H1 as [A _]. exact A.
+Qed.
+
+Lemma tr_blank : forall tr : list str, (tr = [] \/ tr = [[]]) -> exists n, tr = repeat [] n.
+Proof. intros tr [->| ->]; [exists 0|exists 1]; reflexivity. Qed.
+
+Lemma desc_join_i : forall d0 conts tr, wf_idesc d0 conts = true -> (tr = [] \/ tr = [[]]) ->
+  rstrip_nl (join_nl (d0 :: conts ++ tr)) = join_nl (d0 :: rstrip_blank conts).
+Proof.
+  intros d0 conts tr Hw Htr. destruct (wf_idesc_strict d0 conts Hw) as [k [E Hs]].
+  destruct (tr_blank tr Htr) as [n ->].
+  rewrite E at 1. rewrite <- app_assoc. rewrite <- repeat_app. rewrite app_comm_cons.
+  rewrite join_nl_blanks by discriminate.
+  unfold rstrip_nl. rewrite rstrip_by_app_drop by (apply forallb_repeat; reflexivity).
+  assert (H := desc_join d0 (rstrip_blank conts) [] Hs (or_introl eq_refl)). rewrite app_nil_r in H. exact H.
+Qed.
+
+Lemma desc_of_dpart_i : forall d0 conts tr, wf_idesc d0 conts = true -> (tr = [] \/ tr = [[]]) ->
+  desc_of (dpart d0) (conts ++ tr) = join_nl (d0 :: rstrip_blank conts).
+Proof.
+  intros d0 conts tr Hw Htr. unfold desc_of.
+  assert (H := Hw). unfold wf_idesc in H. btrue.
+  rewrite lstrip_dpart; auto. apply desc_join_i; auto.
+Qed.
+
+Lemma desc_of_lstrip_dpart_i : forall d0 conts tr, wf_idesc d0 conts = true -> (tr = [] \/ tr = [[]]) ->
+  desc_of (lstrip (dpart d0)) (conts ++ tr) = join_nl (d0 :: rstrip_blank conts).
+Proof.
+  intros d0 conts tr Hw Htr. unfold desc_of.
+  assert (H := Hw). unfold wf_idesc in H. btrue.
+  rewrite lstrip_dpart; auto. rewrite lstrip_wf; auto. apply desc_join_i; auto.
+Qed.
+
+Lemma desc_of_plain_i : forall d0 conts tr, wf_idesc d0 conts = true -> (tr = [] \/ tr = [[]]) ->
+  desc_of d0 (conts ++ tr) = join_nl (d0 :: rstrip_blank conts).
+Proof.
+  intros d0 conts tr Hw Htr. unfold desc_of.
+  assert (H := Hw). unfold wf_idesc in H. btrue.
+  rewrite lstrip_wf; auto. apply desc_join_i; auto.
+Qed.
+
 Lemma first_line_head : forall k it h, head_of k it = Some h -> first_line k it = h ++ colon :: dpart (w_d0 it).
 Proof. intros k it h H. unfold first_line. rewrite H. reflexivity. Qed.
 
@@ -313,7 +362,7 @@ Lemma parse_param_ok : forall c k it tr, (k = KParams \/ k = KOther) -> wf_item 
   parse_param c (raw k it ++ tr) = Some (expect_item c k false 0 it).
 Proof.
   intros c k it tr Hk Hw Htr.
-  assert (Hw' : wf_desc (w_d0 it) (w_conts it) = true /\
+  assert (Hw' : wf_idesc (w_d0 it) (w_conts it) = true /\
                 is_some (w_name it) && opt_all wf_name (w_name it) && opt_all wf_ann (w_ann it) = true).
   { unfold wf_item in Hw. apply andb_true_iff in Hw. destruct Hk; subst; exact Hw. }
   destruct Hw' as [Hd Hna].
@@ -337,12 +386,12 @@ Proof.
     2:{ rewrite contains_char_app, Hcol. apply contains_colon_annpart. apply contains_colon_not. exact Hacol. }
     rewrite split_first_app by exact Hsp.
     rewrite clean_annotation_ok by exact Han.
-    rewrite desc_of_dpart by auto.
+    rewrite desc_of_dpart_i by auto.
     destruct Hk; subst; reflexivity.
   - rewrite app_nil_r.
     rewrite split_first_app by exact Hcol.
     rewrite split_first_none by exact Hsp.
-    rewrite desc_of_dpart by auto.
+    rewrite desc_of_dpart_i by auto.
     destruct Hk; subst; simpl; destruct (lookup_param c n) as [[a v]|]; reflexivity.
 Qed.
 
@@ -391,11 +440,11 @@ Proof.
     2:{ rewrite contains_char_app, Hcol. apply contains_colon_annpart. apply contains_colon_not. exact Hacol. }
     rewrite split_first_app by exact Hsp.
     rewrite clean_annotation_ok by exact Han.
-    rewrite desc_of_dpart by auto. reflexivity.
+    rewrite desc_of_dpart_i by auto. reflexivity.
   - rewrite app_nil_r.
     rewrite split_first_app by exact Hcol.
     rewrite split_first_none by exact Hsp.
-    rewrite desc_of_dpart by auto.
+    rewrite desc_of_dpart_i by auto.
     simpl. destruct (lookup_attr c n); reflexivity.
 Qed.
 
@@ -407,7 +456,7 @@ Lemma parse_func_ok : forall c k it tr, (k = KFuncs \/ k = KClasses) -> wf_item 
   parse_func (raw k it ++ tr) = Some (expect_item c k false 0 it).
 Proof.
   intros c k it tr Hk Hw Htr.
-  assert (Hw' : wf_desc (w_d0 it) (w_conts it) = true /\
+  assert (Hw' : wf_idesc (w_d0 it) (w_conts it) = true /\
                 is_some (w_name it) && opt_all wf_fname (w_name it) && opt_all wf_sigargs (w_ann it) = true).
   { unfold wf_item in Hw. apply andb_true_iff in Hw. destruct Hk; subst; exact Hw. }
   destruct Hw' as [Hd Hna].
@@ -427,12 +476,12 @@ Proof.
     rewrite split_first_app.
     2:{ rewrite contains_char_app, Hcol. apply contains_colon_sigpart. apply contains_colon_not. exact Hacol. }
     rewrite split_first_app by exact Hlp.
-    rewrite desc_of_dpart by auto.
+    rewrite desc_of_dpart_i by auto.
     destruct Hk; subst; reflexivity.
   - rewrite app_nil_r.
     rewrite split_first_app by exact Hcol.
     rewrite split_first_none by exact Hlp.
-    rewrite desc_of_dpart by auto.
+    rewrite desc_of_dpart_i by auto.
     destruct Hk; subst; reflexivity.
 Qed.
 
@@ -451,7 +500,7 @@ Proof.
   unfold raw, first_line. simpl head_of. simpl w_d0. simpl w_conts.
   unfold parse_module.
   rewrite split_first_app by exact Hcol.
-  rewrite desc_of_dpart by auto. reflexivity.
+  rewrite desc_of_dpart_i by auto. reflexivity.
 Qed.
 
 (* ---- Raises / Warns *)
@@ -459,7 +508,7 @@ Lemma parse_raise_ok : forall c k it tr, (k = KRaises \/ k = KWarns) -> wf_item 
   parse_raise (raw k it ++ tr) = Some (expect_item c k false 0 it).
 Proof.
   intros c k it tr Hk Hw Htr.
-  assert (Hw' : wf_desc (w_d0 it) (w_conts it) = true /\
+  assert (Hw' : wf_idesc (w_d0 it) (w_conts it) = true /\
                 negb (is_some (w_name it)) && is_some (w_ann it) && opt_all wf_exc (w_ann it) = true).
   { unfold wf_item in Hw. apply andb_true_iff in Hw. destruct Hk; subst; exact Hw. }
   destruct Hw' as [Hd Hna].
@@ -475,7 +524,7 @@ Proof.
   rewrite Hhead. simpl w_d0. simpl w_conts.
   unfold parse_raise.
   rewrite split_first_app by (apply contains_colon_not; exact Hacol).
-  rewrite desc_of_dpart by auto.
+  rewrite desc_of_dpart_i by auto.
   destruct Hk; subst; reflexivity.
 Qed.
 
@@ -539,7 +588,7 @@ Qed.
 Definition rkind (k : kind) : Prop := k = KReturns \/ k = KYields \/ k = KReceives.
 
 Lemma wf_item_rkind : forall k it, rkind k -> wf_item k it = true ->
-  wf_desc (w_d0 it) (w_conts it) = true /\
+  wf_idesc (w_d0 it) (w_conts it) = true /\
   opt_all wf_word (w_name it) = true /\
   opt_all wf_rann (w_ann it) = true /\
   (if is_some (w_name it) || is_some (w_ann it) then true else wf_desc_only (w_d0 it)) = true.
@@ -572,7 +621,7 @@ Lemma nonempty_ne : forall (a : str), nonempty a = true -> a <> [].
 Proof. destruct a; [discriminate|discriminate]. Qed.
 
 Lemma get_nad_ok : forall k it tr, rkind k -> wf_item k it = true -> (tr = [] \/ tr = [[]]) ->
-  get_nad true (raw k it ++ tr) = Some (w_name it, w_ann it, join_nl (w_d0 it :: w_conts it)).
+  get_nad true (raw k it ++ tr) = Some (w_name it, w_ann it, join_nl (w_d0 it :: rstrip_blank (w_conts it))).
 Proof.
   intros k it tr Hk Hw Htr.
   destruct (wf_item_rkind k it Hk Hw) as [Hd [Hn [Ha Hdo]]].
@@ -584,19 +633,19 @@ Proof.
       by (rewrite <- app_assoc; simpl; rewrite <- app_assoc; reflexivity).
     rewrite <- app_comm_cons. unfold get_nad.
     rewrite re_nad_name_type; auto.
-    rewrite desc_of_lstrip_dpart by auto. reflexivity.
+    rewrite desc_of_lstrip_dpart_i by auto. reflexivity.
   - rewrite <- app_comm_cons. unfold get_nad. rewrite re_nad_name by auto.
-    rewrite desc_of_lstrip_dpart by auto. reflexivity.
+    rewrite desc_of_lstrip_dpart_i by auto. reflexivity.
   - destruct (wf_rann_facts a Ha) as [Hane [Hpc _]].
     replace ((lparen :: a ++ [rparen]) ++ colon :: dpart d0) with (lparen :: a ++ rparen :: colon :: dpart d0)
       by (simpl; rewrite <- app_assoc; reflexivity).
     rewrite <- app_comm_cons. unfold get_nad.
     rewrite re_nad_type; auto.
-    rewrite desc_of_lstrip_dpart by auto. reflexivity.
+    rewrite desc_of_lstrip_dpart_i by auto. reflexivity.
   - unfold wf_desc_only in Hdo. apply andb_true_iff in Hdo. destruct Hdo as [Hne Hdo].
     rewrite <- app_comm_cons. unfold get_nad.
     rewrite re_nad_default.
-    + rewrite desc_of_plain by auto. reflexivity.
+    + rewrite desc_of_plain_i by auto. reflexivity.
     + destruct (lstrip (snd (span is_word d0))); [exact I|].
       apply andb_true_iff in Hdo. destruct Hdo as [H1 H2]. apply negb_true_iff in H1, H2. auto.
 Qed.
@@ -648,15 +697,30 @@ Proof.
   apply andb_true_iff in H; destruct H as [H1 H2]. auto.
 Qed.
 
+Lemma wf_idesc_conts : forall d0 conts, wf_idesc d0 conts = true -> forallb wf_cont conts = true.
+Proof.
+  intros d0 conts H. unfold wf_idesc in H.
+  apply andb_true_iff in H; destruct H as [H _].
+  apply andb_true_iff in H; destruct H as [_ H]. exact H.
+Qed.
+
+Lemma wf_idesc_d0 : forall d0 conts, wf_idesc d0 conts = true -> all_printable d0 = true /\ first_not_space d0 = true.
+Proof.
+  intros d0 conts H. unfold wf_idesc in H.
+  apply andb_true_iff in H; destruct H as [H _].
+  apply andb_true_iff in H; destruct H as [H _].
+  apply andb_true_iff in H; destruct H as [H1 H2]. auto.
+Qed.
+
 Lemma nsp_head_lparen : forall s, nsp_head (lparen :: s) = true.
 Proof. reflexivity. Qed.
 
 Lemma wf_item_ok : forall k it, wf_item k it = true -> item_ok k it.
 Proof.
   intros k it Hw. split.
-  2:{ unfold wf_item in Hw. apply andb_true_iff in Hw. destruct Hw as [Hd _]. eapply wf_desc_conts; eauto. }
+  2:{ unfold wf_item in Hw. apply andb_true_iff in Hw. destruct Hw as [Hd _]. eapply wf_idesc_conts; eauto. }
   assert (Hw0 := Hw). unfold wf_item in Hw. apply andb_true_iff in Hw. destruct Hw as [Hd Hr].
-  destruct (wf_desc_d0 _ _ Hd) as [Hp0 Hf0].
+  destruct (wf_idesc_d0 _ _ Hd) as [Hp0 Hf0].
   destruct it as [on oa d0 conts]. simpl in Hd, Hp0, Hf0.
   unfold first_line.
   destruct k; simpl in Hr; try discriminate.
@@ -746,14 +810,15 @@ Qed.
 Lemma forallb_in : forall (f : witem -> bool) its it, forallb f its = true -> In it its -> f it = true.
 Proof. intros f its it H Hin. rewrite forallb_forall in H. auto. Qed.
 
-Lemma read_section_ok : forall c k ind it r tail tr n, 1 <= ind ->
+Lemma read_section_ok : forall o c k ind it r tail tr n, 1 <= ind ->
   forallb (wf_item k) (it :: r) = true ->
   tail_ok tail tr n ->
-  read_section default_opts c k (flat_map (item_lines ind k) (it :: r) ++ tail) =
+  (if rkindb k then let '(m, n) := modes_of o k in m && n else true) = true ->
+  read_section o c k (flat_map (item_lines ind k) (it :: r) ++ tail) =
   RS (BItems (expect_items c k (negb (List.length (it :: r) <=? 1)) 0 (it :: r)))
      (List.length (flat_map (item_lines ind k) (it :: r)) + n).
 Proof.
-  intros c k ind it r tail tr n Hi Hw Ht.
+  intros o c k ind it r tail tr n Hi Hw Ht Hmode.
   assert (Hok := wf_items_ok k _ Hw).
   assert (Htr := tail_tr _ _ _ Ht).
   assert (Hrb := read_block_items_ok ind k it r tail tr n Hi Hok Ht).
@@ -792,15 +857,18 @@ Proof.
     rewrite expect_items_map by (unfold plain_kind; tauto).
     apply filter_map_raws; auto. intros it' tr' Hin Ht'. apply parse_module_ok; auto. eapply forallb_in; eauto.
   - (* KReturns *)
-    unfold read_section, ret_reader, read_block_items_maybe, default_opts. simpl ret_multi. simpl ret_named. cbv iota.
+    simpl in Hmode. apply andb_true_iff in Hmode. destruct Hmode as [Hm Hn].
+    unfold read_section, ret_reader, read_block_items_maybe. rewrite Hm, Hn.
     rewrite Hrb. f_equal. f_equal. rewrite raws_length.
     apply (parse_ret_items_ok c KReturns); auto. left; reflexivity.
   - (* KYields *)
-    unfold read_section, ret_reader, read_block_items_maybe, default_opts. simpl ret_multi. simpl ret_named. cbv iota.
+    simpl in Hmode. apply andb_true_iff in Hmode. destruct Hmode as [Hm Hn].
+    unfold read_section, ret_reader, read_block_items_maybe. rewrite Hm, Hn.
     rewrite Hrb. f_equal. f_equal. rewrite raws_length.
     apply (parse_ret_items_ok c KYields); auto. right; left; reflexivity.
   - (* KReceives *)
-    unfold read_section, ret_reader, read_block_items_maybe, default_opts. simpl rec_multi. simpl rec_named. cbv iota.
+    simpl in Hmode. apply andb_true_iff in Hmode. destruct Hmode as [Hm Hn].
+    unfold read_section, ret_reader, read_block_items_maybe. rewrite Hm, Hn.
     rewrite Hrb. f_equal. f_equal. rewrite raws_length.
     apply (parse_ret_items_ok c KReceives); auto. right; right; reflexivity.
 Qed.
@@ -917,6 +985,316 @@ Proof.
   reflexivity.
 Qed.
 
+
+(* ---- Returns / Yields / Receives sections written for other option values (WRet) *)
+(* the block reader on items whose first line is given by any function fl *)
+Definition raw_g (fl : witem -> str) (it : witem) : list str := fl it :: w_conts it.
+Fixpoint raws_g (fl : witem -> str) (tr : list str) (its : list witem) : list (list str) :=
+  match its with
+  | [] => []
+  | [it] => [raw_g fl it ++ tr]
+  | it :: r => raw_g fl it :: raws_g fl tr r
+  end.
+Definition item_ok_g (fl : witem -> str) (it : witem) : Prop :=
+  nsp_head (fl it) = true /\ forallb wf_cont (w_conts it) = true.
+Definition ilines_g (fl : witem -> str) (ind : nat) (it : witem) : list str :=
+  (spaces ind ++ fl it) :: map (indent_line (ind * 2)) (w_conts it).
+
+Lemma ilines_cons_g : forall fl ind it r (tail : list str),
+  flat_map (ilines_g fl ind) (it :: r) ++ tail =
+  (spaces ind ++ fl it) :: (map (indent_line (ind * 2)) (w_conts it) ++ flat_map (ilines_g fl ind) r ++ tail).
+Proof.
+  intros. change (flat_map (ilines_g fl ind) (it :: r)) with (ilines_g fl ind it ++ flat_map (ilines_g fl ind) r).
+  unfold ilines_g at 1. rewrite <- app_assoc. rewrite <- app_comm_cons. reflexivity.
+Qed.
+
+Lemma ilines_length_g : forall fl ind it r,
+  List.length (flat_map (ilines_g fl ind) (it :: r)) = S (List.length (w_conts it) + List.length (flat_map (ilines_g fl ind) r)).
+Proof.
+  intros. change (flat_map (ilines_g fl ind) (it :: r)) with (ilines_g fl ind it ++ flat_map (ilines_g fl ind) r).
+  rewrite app_length. unfold ilines_g. simpl. rewrite map_length. reflexivity.
+Qed.
+
+Lemma rbi_items_g : forall fl ind its tail tr n conts0, 1 <= ind ->
+  Forall (item_ok_g fl) its -> tail_ok tail tr n -> forallb wf_cont conts0 = true ->
+  rbi ind (map (indent_line (ind * 2)) conts0 ++ flat_map (ilines_g fl ind) its ++ tail) =
+  (conts0 ++ match its with [] => tr | _ => [] end, raws_g fl tr its,
+   List.length conts0 + List.length (flat_map (ilines_g fl ind) its) + n).
+Proof.
+  intros fl ind its. induction its as [|it r IH]; intros tail tr n conts0 Hi Hok Ht Hc0.
+  - simpl flat_map. simpl app. rewrite rbi_conts; auto. rewrite (rbi_tail ind tail tr n); auto.
+  - inversion Hok as [|? ? [Hh Hc] Hr]; subst.
+    rewrite rbi_conts; auto.
+    rewrite ilines_cons_g.
+    rewrite rbi_head; auto.
+    rewrite (IH tail tr n (w_conts it)); auto.
+    rewrite ilines_length_g.
+    assert (E : (fl it :: w_conts it ++ match r with [] => tr | _ :: _ => [] end) :: raws_g fl tr r = raws_g fl tr (it :: r)).
+    { destruct r; [reflexivity|]. rewrite app_nil_r. reflexivity. }
+    rewrite E. f_equal. lia.
+Qed.
+
+Lemma read_block_items_ok_g : forall fl ind it r tail tr n, 1 <= ind ->
+  Forall (item_ok_g fl) (it :: r) -> tail_ok tail tr n ->
+  read_block_items (flat_map (ilines_g fl ind) (it :: r) ++ tail) =
+  RBI (raws_g fl tr (it :: r)) (List.length (flat_map (ilines_g fl ind) (it :: r)) + n).
+Proof.
+  intros fl ind it r tail tr n Hi Hok Ht.
+  inversion Hok as [|? ? [Hh Hc] Hr]; subst.
+  rewrite ilines_cons_g.
+  unfold read_block_items.
+  assert (He : is_empty_line (spaces ind ++ fl it) = false)
+    by (rewrite is_empty_spaces_app; apply nsp_head_not_empty; auto).
+  simpl skip_empty. rewrite He.
+  rewrite indent_of_spaces by auto.
+  destruct (ind =? 0) eqn:E0; [apply Nat.eqb_eq in E0; lia|].
+  rewrite (rbi_items_g fl ind r tail tr n (w_conts it)); auto.
+  rewrite skipn_spaces. rewrite ilines_length_g.
+  assert (E : (fl it :: w_conts it ++ match r with [] => tr | _ :: _ => [] end) :: raws_g fl tr r = raws_g fl tr (it :: r)).
+  { destruct r; [reflexivity|]. rewrite app_nil_r. reflexivity. }
+  rewrite E. f_equal.
+Qed.
+
+Lemma raws_g_cons : forall fl tr it r,
+  raws_g fl tr (it :: r) = (raw_g fl it ++ match r with [] => tr | _ => [] end) :: raws_g fl tr r.
+Proof. intros. destruct r; [reflexivity|]. simpl. rewrite app_nil_r. reflexivity. Qed.
+
+Lemma raws_g_length : forall fl tr its, List.length (raws_g fl tr its) = List.length its.
+Proof.
+  intros fl tr. induction its as [|it r IH]; [reflexivity|]. rewrite raws_g_cons. simpl. rewrite IH. reflexivity.
+Qed.
+
+(* an item in the unnamed mode *)
+Lemma wf_uann_facts : forall a, wf_uann a = true ->
+  a <> [] /\ all_printable a = true /\ first_not_space a = true /\ contains_char colon a = false /\
+  lstrip_char lparen a = a /\ rstrip_by (ceq rparen) a = a.
+Proof.
+  intros a H. unfold wf_uann in H.
+  apply andb_true_iff in H; destruct H as [H Hr]. apply andb_true_iff in H; destruct H as [H Hl].
+  apply andb_true_iff in H; destruct H as [H Hc]. apply andb_true_iff in H; destruct H as [H Hf].
+  apply andb_true_iff in H; destruct H as [Hn Hp].
+  apply negb_true_iff in Hr, Hl, Hc.
+  assert (Hne : a <> []) by (destruct a; [discriminate|discriminate]).
+  repeat split; auto.
+  - destruct a as [|x a']; [reflexivity|]. simpl in Hl. simpl. rewrite Hl. reflexivity.
+  - apply rstrip_by_noop. intros d _. rewrite ceq_sym.
+    replace (last a d) with (last a sp); [exact Hr|]. destruct a as [|x a']; [congruence|].
+    clear. revert x. induction a' as [|y a'' IH]; intros x; [reflexivity|]. simpl. simpl in IH. apply IH.
+Qed.
+
+Lemma get_nad_u_ok : forall k it tr, wf_item_m true false k it = true -> (tr = [] \/ tr = [[]]) ->
+  get_nad false (raw_g first_line_u it ++ tr) = Some (None, w_ann it, join_nl (w_d0 it :: rstrip_blank (w_conts it))).
+Proof.
+  intros k it tr Hw Htr. unfold wf_item_m in Hw. apply andb_true_iff in Hw. destruct Hw as [Hw _].
+  apply andb_true_iff in Hw; destruct Hw as [Hw Hbare]. apply andb_true_iff in Hw; destruct Hw as [Hw Ha].
+  apply andb_true_iff in Hw; destruct Hw as [Hd Hn].
+  destruct it as [on oa d0 conts]. simpl in Hd, Hn, Ha, Hbare.
+  unfold raw_g, first_line_u. simpl w_ann. simpl w_d0. simpl w_conts.
+  change ((match oa with Some a => a ++ colon :: dpart d0 | None => d0 end :: conts) ++ tr)
+    with (match oa with Some a => a ++ colon :: dpart d0 | None => d0 end :: (conts ++ tr)).
+  unfold get_nad.
+  destruct oa as [a|].
+  - simpl in Ha. destruct (wf_uann_facts a Ha) as [Hane [Hp [Hf [Hc [Hl Hr]]]]].
+    rewrite (split_first_app colon a (dpart d0) Hc). rewrite Hl, Hr.
+    rewrite desc_of_dpart_i by auto. reflexivity.
+  - apply andb_true_iff in Hbare. destruct Hbare as [_ Hc]. apply negb_true_iff in Hc.
+    rewrite (split_first_none colon d0 Hc). rewrite desc_of_plain_i by auto. reflexivity.
+Qed.
+
+(* the item loop on the raw items of either mode *)
+Lemma parse_ret_items_m : forall c k named fl its tr multiple index, rkind k -> (tr = [] \/ tr = [[]]) ->
+  (forall it tr', In it its -> (tr' = [] \/ tr' = [[]]) ->
+     get_nad named (raw_g fl it ++ tr') = Some (w_name it, w_ann it, join_nl (w_d0 it :: rstrip_blank (w_conts it))) /\
+     (match w_ann it with Some a => nonempty a = true | None => True end)) ->
+  parse_ret_items c named (gen_index_of k) multiple index (raws_g fl tr its) = expect_items c k multiple index its.
+Proof.
+  intros c k named fl its tr multiple. induction its as [|it r IH]; intros index Hk Htr H; [reflexivity|].
+  rewrite raws_g_cons.
+  change (parse_ret_items c named (gen_index_of k) multiple index ((raw_g fl it ++ match r with [] => tr | _ => [] end) :: raws_g fl tr r))
+    with (match get_nad named (raw_g fl it ++ match r with [] => tr | _ => [] end) with
+          | None => parse_ret_items c named (gen_index_of k) multiple (S index) (raws_g fl tr r)
+          | Some (name, ann, d) =>
+              mkItem (Some (match name with Some n => n | None => [] end))
+                     (if truthy ann then ann else annotation_from_parent c (gen_index_of k) multiple index) d None
+                :: parse_ret_items c named (gen_index_of k) multiple (S index) (raws_g fl tr r)
+          end).
+  destruct (H it _ (or_introl eq_refl) (tr_sub tr r Htr)) as [Hg Ha].
+  rewrite Hg. rewrite IH; auto.
+  2:{ intros it' tr' Hin Ht'. apply H; auto. right; exact Hin. }
+  simpl expect_items. f_equal.
+  assert (E : (if truthy (w_ann it) then w_ann it else annotation_from_parent c (gen_index_of k) multiple index)
+              = orelse (w_ann it) (annotation_from_parent c (gen_index_of k) multiple index)).
+  { destruct (w_ann it) as [a|]; [|reflexivity]. rewrite (truthy_ann a Ha). reflexivity. }
+  rewrite E. unfold oapp.
+  destruct Hk as [->|[->| ->]]; reflexivity.
+Qed.
+
+Lemma raw_g_named : forall k it, raw_g (first_line k) it = raw k it.
+Proof. reflexivity. Qed.
+
+Lemma ann_nonempty_named : forall k it, rkind k -> wf_item k it = true ->
+  match w_ann it with Some a => nonempty a = true | None => True end.
+Proof.
+  intros k it Hk Hw. destruct (wf_item_rkind k it Hk Hw) as [_ [_ [Ha _]]].
+  destruct (w_ann it) as [a|]; [|exact I]. simpl in Ha. apply (wf_rann_facts a Ha).
+Qed.
+
+Lemma ann_nonempty_u : forall k it, wf_item_m true false k it = true ->
+  w_name it = None /\ match w_ann it with Some a => nonempty a = true | None => True end.
+Proof.
+  intros k it Hw. unfold wf_item_m in Hw. apply andb_true_iff in Hw. destruct Hw as [Hw _].
+  apply andb_true_iff in Hw; destruct Hw as [Hw _]. apply andb_true_iff in Hw; destruct Hw as [Hw Ha].
+  apply andb_true_iff in Hw; destruct Hw as [_ Hn]. split.
+  - destruct (w_name it); [discriminate|reflexivity].
+  - destruct (w_ann it) as [a|]; [|exact I]. simpl in Ha. unfold wf_uann in Ha.
+    repeat (apply andb_true_iff in Ha; destruct Ha as [Ha ?]). exact Ha.
+Qed.
+
+(* the first line of an item of either mode starts with a non-blank and is printable *)
+Lemma all_printable_app : forall a b, all_printable (a ++ b) = all_printable a && all_printable b.
+Proof. intros. unfold all_printable. apply forallb_app. Qed.
+
+Lemma dpart_printable : forall d0, all_printable d0 = true -> all_printable (dpart d0) = true.
+Proof. intros d0 H. destruct d0; [reflexivity|]. exact H. Qed.
+
+Lemma wf_word_printable : forall n, wf_word n = true -> all_printable n = true.
+Proof.
+  intros n H. destruct (wf_word_facts n H) as [_ [Hw _]]. unfold all_printable. clear H.
+  induction n as [|x n IH]; [reflexivity|]. simpl in *. apply andb_true_iff in Hw. destruct Hw as [Hx Hn].
+  rewrite (word_printable x Hx). apply IH. exact Hn.
+Qed.
+
+Lemma first_line_m_facts : forall multi named k it, rkind k -> wf_item_m multi named k it = true ->
+  nsp_head (first_line_m named k it) = true /\ all_printable (first_line_m named k it) = true /\
+  forallb wf_cont (w_conts it) = true.
+Proof.
+  intros multi named k it Hk Hw. unfold wf_item_m in Hw. apply andb_true_iff in Hw. destruct Hw as [Hw _].
+  destruct named.
+  - destruct (wf_item_ok k it Hw) as [Hh Hc]. split; [exact Hh|]. split; [|exact Hc].
+    destruct (wf_item_rkind k it Hk Hw) as [Hd [Hn [Ha Hdo]]].
+    destruct (wf_idesc_d0 _ _ Hd) as [Hp0 _].
+    unfold first_line_m, first_line. rewrite (head_of_rkind k it Hk).
+    destruct (w_name it) as [n|]; destruct (w_ann it) as [a|]; simpl in Hn, Ha.
+    + assert (Hap : all_printable a = true) by (unfold wf_rann in Ha; repeat (apply andb_true_iff in Ha; destruct Ha as [Ha ?]); assumption).
+      rewrite !all_printable_app. rewrite (wf_word_printable n Hn). simpl.
+      rewrite all_printable_app. rewrite Hap. simpl. apply (dpart_printable _ Hp0).
+    + rewrite all_printable_app. rewrite (wf_word_printable n Hn). simpl. apply (dpart_printable _ Hp0).
+    + assert (Hap : all_printable a = true) by (unfold wf_rann in Ha; repeat (apply andb_true_iff in Ha; destruct Ha as [Ha ?]); assumption).
+      rewrite all_printable_app. simpl. rewrite all_printable_app. rewrite Hap. simpl. apply (dpart_printable _ Hp0).
+    + exact Hp0.
+  - apply andb_true_iff in Hw; destruct Hw as [Hw Hbare]. apply andb_true_iff in Hw; destruct Hw as [Hw Ha].
+    apply andb_true_iff in Hw; destruct Hw as [Hd Hn].
+    destruct (wf_idesc_d0 _ _ Hd) as [Hp0 Hf0].
+    unfold first_line_m, first_line_u. split; [|split; [|apply (wf_idesc_conts _ _ Hd)]].
+    + destruct (w_ann it) as [a|].
+      * simpl in Ha. destruct (wf_uann_facts a Ha) as [Hane [Hp [Hf _]]].
+        apply nsp_head_app. apply nsp_head_of; auto. destruct a; [congruence|reflexivity].
+      * apply andb_true_iff in Hbare. destruct Hbare as [Hne _]. apply nsp_head_of; auto.
+    + destruct (w_ann it) as [a|].
+      * simpl in Ha. destruct (wf_uann_facts a Ha) as [_ [Hp _]].
+        rewrite all_printable_app. rewrite Hp. simpl. apply (dpart_printable _ Hp0).
+      * exact Hp0.
+Qed.
+
+Lemma ilines_m_multi : forall named ind k, item_lines_m true named ind k = ilines_g (first_line_m named k) ind.
+Proof. reflexivity. Qed.
+
+(* s.split("\n") gives the lines back when no line contains a newline *)
+Lemma split_nl_printable : forall l, forallb printable l = true -> split_nl l = [l].
+Proof.
+  induction l as [|x l IH]; intros H; [reflexivity|]. simpl in H. apply andb_true_iff in H. destruct H as [Hx Hl].
+  simpl. rewrite ceq_sym. rewrite (printable_not_nl x Hx). rewrite (IH Hl). reflexivity.
+Qed.
+
+Lemma split_nl_app : forall l rest, forallb printable l = true -> split_nl (l ++ nl :: rest) = l :: split_nl rest.
+Proof.
+  induction l as [|x l IH]; intros rest H.
+  - reflexivity.
+  - simpl in H. apply andb_true_iff in H. destruct H as [Hx Hl].
+    simpl. rewrite ceq_sym. rewrite (printable_not_nl x Hx). rewrite (IH rest Hl). reflexivity.
+Qed.
+
+Lemma split_nl_join : forall L, L <> [] -> (forall l, In l L -> forallb printable l = true) -> split_nl (join_nl L) = L.
+Proof.
+  induction L as [|l L IH]; intros Hn HP; [congruence|].
+  destruct L as [|l2 L'].
+  - simpl. apply split_nl_printable. apply HP. left; reflexivity.
+  - rewrite join_nl_cons by discriminate. rewrite split_nl_app by (apply HP; left; reflexivity).
+    rewrite IH; [reflexivity|discriminate|]. intros x Hx. apply HP. right; exact Hx.
+Qed.
+
+Lemma first_not_space_of_nsp : forall s, nsp_head s = true -> all_printable s = true -> first_not_space s = true.
+Proof.
+  intros s Hh Hp. destruct s as [|x l]; [reflexivity|]. simpl in *.
+  unfold all_printable in Hp. simpl in Hp. apply andb_true_iff in Hp. destruct Hp as [Hx _].
+  rewrite <- (printable_space x Hx). exact Hh.
+Qed.
+
+(* the reader of a Returns / Yields / Receives section in any mode *)
+Lemma read_section_ret_ok : forall o c m n k ind it r tail tr cnt, 1 <= ind -> rkind k ->
+  forallb (wf_item_m m n k) (it :: r) = true ->
+  modes_of o k = (m, n) -> (m = true \/ r = []) ->
+  tail_ok tail tr cnt ->
+  read_section o c k (flat_map (item_lines_m m n ind k) (it :: r) ++ tail) =
+  RS (BItems (expect_items c k (negb (List.length (it :: r) <=? 1)) 0 (it :: r)))
+     (List.length (flat_map (item_lines_m m n ind k) (it :: r)) + cnt).
+Proof.
+  intros o c m n k ind it r tail tr cnt Hi Hk Hw Hmode Hsingle Ht.
+  assert (Htr := tail_tr _ _ _ Ht).
+  assert (Hreader : read_section o c k = ret_reader c m n (gen_index_of k)).
+  { unfold modes_of in Hmode. destruct Hk as [->|[->| ->]]; unfold read_section; inversion Hmode; reflexivity. }
+  rewrite Hreader. unfold ret_reader, read_block_items_maybe.
+  destruct m.
+  - (* several items allowed: the items block reader *)
+    rewrite ilines_m_multi.
+    assert (Hok : Forall (item_ok_g (first_line_m n k)) (it :: r)).
+    { apply Forall_forall. intros it' Hin. rewrite forallb_forall in Hw. specialize (Hw it' Hin).
+      destruct (first_line_m_facts true n k it' Hk Hw) as [A [_ B]]. split; assumption. }
+    rewrite (read_block_items_ok_g (first_line_m n k) ind it r tail tr cnt Hi Hok Ht).
+    f_equal. f_equal. rewrite raws_g_length.
+    apply (parse_ret_items_m c k n (first_line_m n k)); auto.
+    intros it' tr' Hin Ht'. rewrite forallb_forall in Hw. specialize (Hw it' Hin).
+    destruct n.
+    + assert (Hw' : wf_item k it' = true) by (unfold wf_item_m in Hw; apply andb_true_iff in Hw; destruct Hw as [Hw _]; exact Hw).
+      split; [apply (get_nad_ok k it' tr' Hk Hw' Ht')|apply (ann_nonempty_named k it' Hk Hw')].
+    + destruct (ann_nonempty_u k it' Hw) as [Hn Ha]. split; [|exact Ha].
+      rewrite Hn. apply (get_nad_u_ok k it' tr' Hw Ht').
+  - (* one item: the whole block *)
+    destruct Hsingle as [Hm|Hr]; [discriminate|]. subst r.
+    simpl in Hw. rewrite andb_true_r in Hw.
+    destruct (first_line_m_facts false n k it Hk Hw) as [Hh [Hp Hc]].
+    assert (Hlast : last_nonempty (w_conts it) = true).
+    { unfold wf_item_m in Hw. apply andb_true_iff in Hw. destruct Hw as [_ Hl]. exact Hl. }
+    assert (Hwd : wf_desc (first_line_m n k it) (w_conts it) = true).
+    { unfold wf_desc. rewrite Hp, Hc, Hlast. rewrite (first_not_space_of_nsp _ Hh Hp). reflexivity. }
+    assert (Hne : nonempty (first_line_m n k it) = true) by (destruct (first_line_m n k it); [discriminate|reflexivity]).
+    replace (flat_map (item_lines_m false n ind k) [it]) with (map (indent_line ind) (first_line_m n k it :: w_conts it) ++ []).
+    2:{ unfold item_lines_m. simpl. rewrite !app_nil_r.
+        destruct (first_line_m n k it) as [|x l]; [discriminate|]. reflexivity. }
+    rewrite app_nil_r.
+    rewrite (read_block_ok ind (first_line_m n k it) (w_conts it) tail tr cnt Hi Hne Hwd Ht).
+    assert (HP : forall l, In l (first_line_m n k it :: w_conts it) -> forallb printable l = true).
+    { intros l [<-|Hin]; [exact Hp|]. eapply wf_cont_printable; eauto. }
+    destruct (join_nl (first_line_m n k it :: w_conts it)) as [|x txt] eqn:Ej.
+    { destruct (first_line_m n k it); [discriminate|]. destruct (w_conts it); simpl in Ej; discriminate. }
+    cbv iota. rewrite <- Ej.
+    assert (Hnn : first_line_m n k it :: w_conts it <> []) by discriminate.
+    rewrite (split_nl_join _ Hnn HP).
+    simpl List.length. rewrite map_length. f_equal.
+    { f_equal.
+      replace [first_line_m n k it :: w_conts it] with (raws_g (first_line_m n k) [] [it])
+        by (simpl; unfold raw_g; rewrite app_nil_r; reflexivity).
+      apply (parse_ret_items_m c k n (first_line_m n k) [it] [] false 0 Hk (or_introl eq_refl)).
+      intros it' tr' [<-|[]] Ht'.
+      assert (Hwm : wf_item_m true n k it = true).
+      { unfold wf_item_m in *. apply andb_true_iff in Hw. destruct Hw as [Hw _]. rewrite Hw. reflexivity. }
+      destruct n.
+      * assert (Hw' : wf_item k it = true) by (unfold wf_item_m in Hw; apply andb_true_iff in Hw; destruct Hw as [Hw _]; exact Hw).
+        split; [apply (get_nad_ok k it tr' Hk Hw' Ht')|apply (ann_nonempty_named k it Hk Hw')].
+      * destruct (ann_nonempty_u k it Hwm) as [Hn Ha]. split; [|exact Ha].
+        rewrite Hn. apply (get_nad_u_ok k it tr' Hwm Ht'). }
+Qed.
+
 (* ---- the main loop *)
 Lemma gloop_step : forall f o c cur incode pb l rest,
   gloop (S f) o c cur incode pb (l :: rest) =
@@ -970,8 +1348,6 @@ Proof.
   intros x H. unfold indented_opt. unfold unind in H. apply negb_true_iff in H. rewrite H. apply andb_false_r.
 Qed.
 
-Definition text_line_ok (l : str) : Prop := is_fence l = false /\ unind l = true.
-
 Definition two_unind (rest : list str) : Prop :=
   indented_opt (nth_error rest 0) = false /\ indented_opt (nth_error rest 1) = false.
 
@@ -982,20 +1358,41 @@ Proof.
   - exact H0.
 Qed.
 
-Lemma gloop_text : forall o c tl rest f cur pb, Forall text_line_ok tl -> two_unind rest ->
-  gloop (List.length tl + f) o c cur false pb (tl ++ rest) =
+(* what lies within two lines of a text line: its own section's lines first, then the lines after the section *)
+Lemma nth_app_unind : forall (tl rest : list str) i, i <= 1 -> indented_opt (nth_error tl i) = false -> two_unind rest ->
+  indented_opt (nth_error (tl ++ rest) i) = false.
+Proof.
+  intros tl rest i Hi Ht [R0 R1].
+  destruct tl as [|a [|b tl'']]; destruct i as [|[|i']]; try lia; simpl in *; auto.
+Qed.
+
+Lemma gloop_text : forall o c tl rest f cur pb incode, wf_tl incode tl = true -> two_unind rest ->
+  gloop (List.length tl + f) o c cur incode pb (tl ++ rest) =
   gloop f o c (cur ++ tl) false (match tl with [] => pb | _ => is_empty_line (last tl []) end) rest.
 Proof.
-  intros o c tl. induction tl as [|l tl' IH]; intros rest f cur pb Ht Hr.
-  - simpl. rewrite app_nil_r. reflexivity.
-  - inversion Ht as [|? ? [Hf Hu] Ht']; subst.
-    assert (Hr' : two_unind (tl' ++ rest)).
-    { clear IH Ht. induction Ht' as [|x tl'' [_ Hx] _ IH']; [exact Hr|]. simpl. apply two_unind_cons; auto. }
+  intros o c tl. induction tl as [|l tl' IH]; intros rest f cur pb incode Ht Hr.
+  - simpl in Ht. apply negb_true_iff in Ht. subst incode. simpl. rewrite app_nil_r. reflexivity.
+  - simpl in Ht. apply andb_true_iff in Ht. destruct Ht as [Hp Ht].
     simpl List.length. simpl plus. rewrite <- app_comm_cons.
-    rewrite gloop_plain by (auto; right; exact Hr').
-    rewrite IH by auto.
-    rewrite <- app_assoc. simpl app.
-    destruct tl' as [|l2 tl'']; reflexivity.
+    assert (Hlast : forall b, match tl' with [] => b | _ => is_empty_line (last tl' []) end =
+                              match tl' with [] => b | _ => is_empty_line (last (l :: tl') []) end)
+      by (intros b; destruct tl'; reflexivity).
+    destruct incode.
+    + rewrite gloop_step. cbv zeta. cbv iota.
+      rewrite (IH rest f (cur ++ [l]) (is_empty_line l) _ Ht Hr).
+      rewrite <- app_assoc. simpl app. destruct tl'; reflexivity.
+    + apply andb_true_iff in Ht. destruct Ht as [Hfs Ht].
+      destruct (is_fence l) eqn:Ef.
+      * rewrite gloop_step. cbv zeta. cbv iota. rewrite Ef.
+        rewrite (IH rest f (cur ++ [l]) (is_empty_line l) _ Ht Hr).
+        rewrite <- app_assoc. simpl app. destruct tl'; reflexivity.
+      * apply andb_true_iff in Ht. destruct Ht as [Hsafe Ht].
+        rewrite gloop_plain; [|exact Ef|].
+        -- rewrite (IH rest f (cur ++ [l]) (is_empty_line l) _ Ht Hr).
+           rewrite <- app_assoc. simpl app. destruct tl'; reflexivity.
+        -- unfold adm_safe in Hsafe. destruct (re_admonition l) as [p|]; [right|left; reflexivity].
+           apply negb_true_iff in Hsafe. apply orb_false_iff in Hsafe. destruct Hsafe as [S0 S1].
+           split; apply nth_app_unind; auto.
 Qed.
 
 Lemma gloop_section : forall f o c cur l rest ty title k b n,
@@ -1036,8 +1433,20 @@ Lemma render_cons2 : forall ind s s2 r,
   render_google ind (s :: s2 :: r) = render_sec ind s ++ [] :: render_google ind (s2 :: r).
 Proof. reflexivity. Qed.
 
-Lemma wf_text_facts : forall tl, (nonempty (hd [] tl) && last_nonempty tl && forallb wf_text_line tl && match tl with [] => false | _ => true end) = true ->
-  tl <> [] /\ nonempty (hd [] tl) = true /\ last tl [] <> [] /\ Forall text_line_ok tl /\
+Lemma wf_tl_printable : forall tl incode, wf_tl incode tl = true -> forall l, In l tl -> forallb printable l = true.
+Proof.
+  induction tl as [|x tl IH]; intros incode H l Hin; [destruct Hin|].
+  simpl in H. apply andb_true_iff in H. destruct H as [Hp H].
+  destruct Hin as [<-|Hin]; [exact Hp|].
+  destruct incode.
+  - apply (IH _ H l Hin).
+  - apply andb_true_iff in H. destruct H as [_ H]. destruct (is_fence x).
+    + apply (IH _ H l Hin).
+    + apply andb_true_iff in H. destruct H as [_ H]. apply (IH _ H l Hin).
+Qed.
+
+Lemma wf_text_facts : forall tl, (nonempty (hd [] tl) && last_nonempty tl && wf_tl false tl && match tl with [] => false | _ => true end) = true ->
+  tl <> [] /\ nonempty (hd [] tl) = true /\ last tl [] <> [] /\ wf_tl false tl = true /\
   (forall l, In l tl -> forallb printable l = true).
 Proof.
   intros tl H.
@@ -1047,16 +1456,7 @@ Proof.
   assert (Hn : tl <> []) by (destruct tl; [discriminate|discriminate]).
   repeat split; auto.
   - unfold last_nonempty in Hlast. destruct tl; [congruence|]. destruct (last (l :: tl) []); [discriminate|discriminate].
-  - apply Forall_forall. intros l Hin. rewrite forallb_forall in Hall. specialize (Hall l Hin).
-    unfold wf_text_line in Hall.
-    apply andb_true_iff in Hall; destruct Hall as [Hall Hf].
-    apply andb_true_iff in Hall; destruct Hall as [Hp Hfs].
-    split; [apply negb_true_iff in Hf; exact Hf|].
-    destruct l as [|x l']; [reflexivity|]. rewrite unind_cons. simpl in Hfs. rewrite ceq_sym. exact Hfs.
-  - intros l Hin. rewrite forallb_forall in Hall. specialize (Hall l Hin).
-    unfold wf_text_line in Hall.
-    apply andb_true_iff in Hall; destruct Hall as [Hall Hf].
-    apply andb_true_iff in Hall; destruct Hall as [Hp Hfs]. exact Hp.
+  - apply (wf_tl_printable tl false Hall).
 Qed.
 
 Lemma text_of_join : forall tl, tl <> [] -> (forall l, In l tl -> forallb printable l = true) -> last tl [] <> [] ->
@@ -1066,31 +1466,30 @@ Proof. intros. unfold text_of. split; [apply rstrip_join|apply rstrip_join_snoc]
 Lemma any_truthy_hd : forall tl rest, nonempty (hd [] tl) = true -> any_truthy (tl ++ rest) = true.
 Proof. intros tl rest H. destruct tl as [|l tl']; [discriminate|]. simpl. destruct l; [discriminate|reflexivity]. Qed.
 
-Lemma render_sec_head : forall c ind s, wf_sec c s = true -> exists l rest, render_sec ind s = l :: rest /\ nsp_head l = true.
+Lemma wf_sec_header : forall o c s, wf_sec o c s = true ->
+  match s with WText _ => True | WItems _ h _ _ | WAdm h _ _ | WRet _ _ _ h _ _ => wf_header h = true end.
 Proof.
-  intros c ind s H. destruct s as [tl|k h t its|h t ls]; simpl in H.
-  - destruct (wf_text_facts tl H) as [Hn [Hhd [_ [Hok HP]]]].
-    destruct tl as [|l tl']; [congruence|]. exists l, tl'. split; [reflexivity|].
-    simpl in Hhd. inversion Hok as [|? ? [_ Hu] _]; subst.
-    destruct l as [|x l']; [discriminate|]. simpl.
-    assert (Hp : forallb printable (x :: l') = true) by (apply HP; left; reflexivity).
-    simpl in Hp. apply andb_true_iff in Hp. destruct Hp as [Hx _].
-    rewrite (printable_space x Hx). rewrite unind_cons in Hu. rewrite ceq_sym. exact Hu.
-  - apply andb_true_iff in H; destruct H as [H _].
-    apply andb_true_iff in H; destruct H as [H _].
-    apply andb_true_iff in H; destruct H as [H _].
-    apply andb_true_iff in H; destruct H as [Hh _].
-    eexists. eexists. split; [reflexivity|]. apply header_line_head. exact Hh.
-  - apply andb_true_iff in H; destruct H as [H _].
-    apply andb_true_iff in H; destruct H as [H _].
-    apply andb_true_iff in H; destruct H as [Hh _].
-    eexists. eexists. split; [reflexivity|]. apply header_line_head. exact Hh.
+  intros o c s H. destruct s as [tl|k h t its|h t ls|m n k h t its]; [exact I| | |];
+    unfold wf_sec in H; destruct (wf_header h) eqn:E; try reflexivity; simpl in H; discriminate.
 Qed.
 
-Lemma render_google_head : forall c ind s r, wf_sec c s = true ->
+Lemma render_sec_head : forall o c ind s, wf_sec o c s = true -> exists l rest, render_sec ind s = l :: rest /\ nsp_head l = true.
+Proof.
+  intros o c ind s H. assert (Hh := wf_sec_header o c s H). destruct s as [tl|k h t its|h t ls|m n k h t its].
+  - simpl in H. destruct (wf_text_facts tl H) as [Hn [Hhd [_ [Hok HP]]]].
+    destruct tl as [|l tl']; [congruence|]. exists l, tl'. split; [reflexivity|].
+    simpl in Hhd. simpl in Hok. apply andb_true_iff in Hok. destruct Hok as [Hpl Hok].
+    apply andb_true_iff in Hok. destruct Hok as [Hfs _].
+    apply nsp_head_of; auto.
+  - eexists. eexists. split; [reflexivity|]. apply header_line_head. exact Hh.
+  - eexists. eexists. split; [reflexivity|]. apply header_line_head. exact Hh.
+  - eexists. eexists. split; [reflexivity|]. apply header_line_head. exact Hh.
+Qed.
+
+Lemma render_google_head : forall o c ind s r, wf_sec o c s = true ->
   exists l rest, render_google ind (s :: r) = l :: rest /\ nsp_head l = true.
 Proof.
-  intros c ind s r H. destruct (render_sec_head c ind s H) as [l [rest [E Hl]]].
+  intros o c ind s r H. destruct (render_sec_head o c ind s H) as [l [rest [E Hl]]].
   destruct r as [|s2 r'].
   - exists l, rest. simpl. auto.
   - rewrite render_cons2. rewrite E. exists l, (rest ++ [] :: render_google ind (s2 :: r')). auto.
@@ -1103,13 +1502,13 @@ Definition tail_of (ind : nat) (r : list wsec) : list str :=
 Lemma render_google_tail : forall ind s r, render_google ind (s :: r) = render_sec ind s ++ tail_of ind r.
 Proof. intros. destruct r; [simpl; rewrite app_nil_r; reflexivity|reflexivity]. Qed.
 
-Lemma tail_of_ok : forall c ind r, forallb (wf_sec c) r = true ->
+Lemma tail_of_ok : forall o c ind r, forallb (wf_sec o c) r = true ->
   exists tr n, tail_ok (tail_of ind r) tr n /\ n = match r with [] => 0 | _ => 1 end.
 Proof.
-  intros c ind r H. destruct r as [|s r'].
+  intros o c ind r H. destruct r as [|s r'].
   - exists [], 0. split; [constructor|reflexivity].
   - simpl in H. apply andb_true_iff in H. destruct H as [Hs _].
-    destruct (render_google_head c ind s r' Hs) as [l [rest [E Hl]]].
+    destruct (render_google_head o c ind s r' Hs) as [l [rest [E Hl]]].
     exists [[]], 1. split; [|reflexivity]. unfold tail_of. rewrite E. constructor. exact Hl.
 Qed.
 
@@ -1146,14 +1545,14 @@ Definition first_not_text (secs : list wsec) : Prop :=
 Lemma pcons_ok : forall x l, pcons x (POk l) = POk (x ++ l).
 Proof. reflexivity. Qed.
 
-Theorem google_roundtrip_gen : forall c ind secs, 1 <= ind -> wf_secs c secs = true ->
+Theorem google_roundtrip_gen : forall o c ind secs, 1 <= ind -> wf_secs o c secs = true ->
   forall f, List.length (render_google ind secs) < f ->
-  gloop f default_opts c [] false true (render_google ind secs) = POk (expect_google c secs) /\
-  (forall tl, wf_sec c (WText tl) = true -> first_not_text secs ->
-     gloop f default_opts c (tl ++ [[]]) false true (render_google ind secs)
+  gloop f o c [] false true (render_google ind secs) = POk (expect_google c secs) /\
+  (forall tl, wf_sec o c (WText tl) = true -> first_not_text secs ->
+     gloop f o c (tl ++ [[]]) false true (render_google ind secs)
      = POk (GText (join_nl tl) :: expect_google c secs)).
 Proof.
-  intros c ind secs Hi. induction secs as [|s r IH]; intros Hwf f Hf.
+  intros o c ind secs Hi. induction secs as [|s r IH]; intros Hwf f Hf.
   - split.
     + destruct f; [simpl in Hf; lia|]. reflexivity.
     + intros tl _ [].
@@ -1161,11 +1560,11 @@ Proof.
     simpl in Hall. apply andb_true_iff in Hall. destruct Hall as [Hs Hr].
     assert (Hadj_r : no_adjacent_text r = true).
     { destruct r as [|s2 r']; [reflexivity|]. simpl in Hadj. apply andb_true_iff in Hadj. destruct Hadj as [_ H]. exact H. }
-    assert (Hwf_r : wf_secs c r = true) by (unfold wf_secs; rewrite Hr, Hadj_r; reflexivity).
+    assert (Hwf_r : wf_secs o c r = true) by (unfold wf_secs; rewrite Hr, Hadj_r; reflexivity).
     specialize (IH Hwf_r).
-    destruct (tail_of_ok c ind r Hr) as [tr [n [Htail Hn]]].
+    destruct (tail_of_ok o c ind r Hr) as [tr [n [Htail Hn]]].
     rewrite render_google_tail in Hf |- *.
-    destruct s as [tl0|k h t its|h t ls].
+    destruct s as [tl0|k h t its|h t ls|m nm k h t its].
     + (* free text *)
       split; [|intros tl _ Hnt; simpl in Hnt; discriminate].
       simpl in Hs. destruct (wf_text_facts tl0 Hs) as [Hn0 [Hhd [Hlast [Hok HP]]]].
@@ -1179,7 +1578,7 @@ Proof.
       * assert (Hnt : is_text s2 = false).
         { simpl in Hadj. apply andb_true_iff in Hadj. destruct Hadj as [H _]. simpl in H. apply negb_true_iff in H. exact H. }
         simpl in Hr. apply andb_true_iff in Hr. destruct Hr as [Hs2 Hr'].
-        destruct (render_google_head c ind s2 r' Hs2) as [l2 [rest2 [E2 Hl2]]].
+        destruct (render_google_head o c ind s2 r' Hs2) as [l2 [rest2 [E2 Hl2]]].
         unfold tail_of in *.
         change (List.length ([] :: render_google ind (s2 :: r'))) with (S (List.length (render_google ind (s2 :: r')))) in Hf.
         rewrite gloop_text; auto.
@@ -1192,6 +1591,7 @@ Proof.
         rewrite (IHb tl0 Hs Hnt). reflexivity.
     + (* a section of items *)
       simpl in Hs.
+      apply andb_true_iff in Hs; destruct Hs as [Hs Hmode].
       apply andb_true_iff in Hs; destruct Hs as [Hs Hitems].
       apply andb_true_iff in Hs; destruct Hs as [Hs Hne].
       apply andb_true_iff in Hs; destruct Hs as [Hs Hkind].
@@ -1202,7 +1602,7 @@ Proof.
       destruct (header_line_head h t Hh) as [_ Hfence].
       assert (Hre := re_admonition_header h t Hh Ht).
       assert (Hok := wf_items_ok k _ Hitems).
-      assert (Hrs := read_section_ok c k ind it its' (tail_of ind r) tr n Hi Hitems Htail).
+      assert (Hrs := read_section_ok o c k ind it its' (tail_of ind r) tr n Hi Hitems Htail Hmode).
       set (X := flat_map (item_lines ind k) (it :: its')) in *.
       change (render_sec ind (WItems k h t (it :: its'))) with (header_line h t :: X) in *.
       destruct (after_block ind X r n Hn) as [Hskip Hpb].
@@ -1213,19 +1613,19 @@ Proof.
       { simpl in Hf. rewrite app_length in Hf. destruct r; simpl in *; lia. }
       assert (Hexp : expect_google c (WItems k h t (it :: its') :: r) =
                      GItems k t (expect_items c k (negb (List.length (it :: its') <=? 1)) 0 (it :: its')) :: expect_google c r) by reflexivity.
-      assert (Hrest : gloop f' default_opts c [] false (prev_blank_after (X ++ tail_of ind r) (List.length X + n))
+      assert (Hrest : gloop f' o c [] false (prev_blank_after (X ++ tail_of ind r) (List.length X + n))
                         (skipn (List.length X + n) (X ++ tail_of ind r)) = POk (expect_google c r)).
       { rewrite Hskip. destruct r as [|s2 r'].
         - destruct f'; [simpl in Hf'; lia|]. reflexivity.
         - rewrite Hpb by discriminate. destruct (IH f' Hf') as [IHa _]. exact IHa. }
       split.
       * rewrite <- app_comm_cons.
-        rewrite (gloop_section f' default_opts c [] _ _ h t k _ _ Hfence Hre Hind Ek Hrs).
+        rewrite (gloop_section f' o c [] _ _ h t k _ _ Hfence Hre Hind Ek Hrs).
         rewrite Hrest. rewrite Hexp. reflexivity.
       * intros tl Htl _. simpl in Htl. destruct (wf_text_facts tl Htl) as [Hn0 [Hhd [Hlast [_ HP]]]].
         destruct (text_of_join tl Hn0 HP Hlast) as [_ Et2].
         rewrite <- app_comm_cons.
-        rewrite (gloop_section f' default_opts c (tl ++ [[]]) _ _ h t k _ _ Hfence Hre Hind Ek Hrs).
+        rewrite (gloop_section f' o c (tl ++ [[]]) _ _ h t k _ _ Hfence Hre Hind Ek Hrs).
         rewrite Hrest. rewrite Hexp. unfold flush. rewrite (any_truthy_hd tl [[]] Hhd). rewrite Et2. reflexivity.
     + (* an admonition *)
       simpl in Hs.
@@ -1253,7 +1653,7 @@ Proof.
       { simpl in Hf. rewrite app_length in Hf. destruct r; simpl in *; lia. }
       assert (Hexp : expect_google c (WAdm h t (l0 :: ls') :: r) =
                      GAdm (dashify h) (match t with Some y => y | None => h end) (join_nl (l0 :: ls')) :: expect_google c r) by reflexivity.
-      assert (Hrest : gloop f' default_opts c [] false (prev_blank_after (X ++ tail_of ind r) (List.length X + n))
+      assert (Hrest : gloop f' o c [] false (prev_blank_after (X ++ tail_of ind r) (List.length X + n))
                         (skipn (List.length X + n) (X ++ tail_of ind r)) = POk (expect_google c r)).
       { rewrite Hskip. destruct r as [|s2 r'].
         - destruct f'; [simpl in Hf'; lia|]. reflexivity.
@@ -1262,59 +1662,107 @@ Proof.
       { destruct l0 as [|y l0']; [discriminate|]. destruct ls'; simpl in Ej; discriminate. }
       split.
       * rewrite <- app_comm_cons.
-        rewrite (gloop_adm f' default_opts c [] _ _ h t x txt _ Hfence Hre Hind Ek Hrb).
+        rewrite (gloop_adm f' o c [] _ _ h t x txt _ Hfence Hre Hind Ek Hrb).
         rewrite Hrest. rewrite Hexp. reflexivity.
       * intros tl Htl _. simpl in Htl. destruct (wf_text_facts tl Htl) as [Hn0 [Hhd [Hlast [_ HP]]]].
         destruct (text_of_join tl Hn0 HP Hlast) as [_ Et2].
         rewrite <- app_comm_cons.
-        rewrite (gloop_adm f' default_opts c (tl ++ [[]]) _ _ h t x txt _ Hfence Hre Hind Ek Hrb).
+        rewrite (gloop_adm f' o c (tl ++ [[]]) _ _ h t x txt _ Hfence Hre Hind Ek Hrb).
+        rewrite Hrest. rewrite Hexp. unfold flush. rewrite (any_truthy_hd tl [[]] Hhd). rewrite Et2. reflexivity.
+    + (* a Returns / Yields / Receives section written for the option values in force *)
+      simpl in Hs.
+      apply andb_true_iff in Hs; destruct Hs as [Hs Hlen].
+      apply andb_true_iff in Hs; destruct Hs as [Hs Hmode].
+      apply andb_true_iff in Hs; destruct Hs as [Hs Hrk].
+      apply andb_true_iff in Hs; destruct Hs as [Hs Hitems].
+      apply andb_true_iff in Hs; destruct Hs as [Hs Hne].
+      apply andb_true_iff in Hs; destruct Hs as [Hs Hkind].
+      apply andb_true_iff in Hs; destruct Hs as [Hh Ht].
+      destruct (g_section_kind (lower h)) as [k'|] eqn:Ek; [|discriminate].
+      apply kind_eqb_eq in Hkind. subst k'.
+      destruct its as [|it its']; [discriminate|].
+      assert (Hk : rkind k) by (destruct k; try discriminate; unfold rkind; tauto).
+      assert (Hmodes : modes_of o k = (m, nm)).
+      { destruct (modes_of o k) as [m' n']. apply andb_true_iff in Hmode. destruct Hmode as [A B].
+        apply Bool.eqb_prop in A. apply Bool.eqb_prop in B. subst. reflexivity. }
+      assert (Hsingle : m = true \/ its' = []).
+      { destruct m; [left; reflexivity|right]. simpl in Hlen. destruct its'; [reflexivity|discriminate]. }
+      destruct (header_line_head h t Hh) as [_ Hfence].
+      assert (Hre := re_admonition_header h t Hh Ht).
+      assert (Hrs := read_section_ret_ok o c m nm k ind it its' (tail_of ind r) tr n Hi Hk Hitems Hmodes Hsingle Htail).
+      set (X := flat_map (item_lines_m m nm ind k) (it :: its')) in *.
+      change (render_sec ind (WRet m nm k h t (it :: its'))) with (header_line h t :: X) in *.
+      destruct (after_block ind X r n Hn) as [Hskip Hpb].
+      assert (Hind : indented_opt (nth_error (X ++ tail_of ind r) 0) = true).
+      { unfold X. change (flat_map (item_lines_m m nm ind k) (it :: its')) with (item_lines_m m nm ind k it ++ flat_map (item_lines_m m nm ind k) its').
+        unfold item_lines_m at 1. rewrite <- app_assoc. rewrite <- app_comm_cons.
+        simpl in Hitems. apply andb_true_iff in Hitems. destruct Hitems as [Hit _].
+        destruct (first_line_m_facts m nm k it Hk Hit) as [Hh1 _]. apply indented_first; auto. }
+      destruct f as [|f']; [lia|].
+      assert (Hf' : List.length (render_google ind r) < f').
+      { simpl in Hf. rewrite app_length in Hf. destruct r; simpl in *; lia. }
+      assert (Hexp : expect_google c (WRet m nm k h t (it :: its') :: r) =
+                     GItems k t (expect_items c k (negb (List.length (it :: its') <=? 1)) 0 (it :: its')) :: expect_google c r) by reflexivity.
+      assert (Hrest : gloop f' o c [] false (prev_blank_after (X ++ tail_of ind r) (List.length X + n))
+                        (skipn (List.length X + n) (X ++ tail_of ind r)) = POk (expect_google c r)).
+      { rewrite Hskip. destruct r as [|s2 r'].
+        - destruct f'; [simpl in Hf'; lia|]. reflexivity.
+        - rewrite Hpb by discriminate. destruct (IH f' Hf') as [IHa _]. exact IHa. }
+      split.
+      * rewrite <- app_comm_cons.
+        rewrite (gloop_section f' o c [] _ _ h t k _ _ Hfence Hre Hind Ek Hrs).
+        rewrite Hrest. rewrite Hexp. reflexivity.
+      * intros tl Htl _. simpl in Htl. destruct (wf_text_facts tl Htl) as [Hn0 [Hhd [Hlast [_ HP]]]].
+        destruct (text_of_join tl Hn0 HP Hlast) as [_ Et2].
+        rewrite <- app_comm_cons.
+        rewrite (gloop_section f' o c (tl ++ [[]]) _ _ h t k _ _ Hfence Hre Hind Ek Hrs).
         rewrite Hrest. rewrite Hexp. unfold flush. rewrite (any_truthy_hd tl [[]] Hhd). rewrite Et2. reflexivity.
 Qed.
 
-Theorem google_roundtrip : forall c ind secs, 1 <= ind -> wf_secs c secs = true ->
-  parse_google default_opts c (render_google ind secs) = POk (expect_google c secs).
+Theorem google_roundtrip : forall o c ind secs, 1 <= ind -> wf_secs o c secs = true ->
+  parse_google o c (render_google ind secs) = POk (expect_google c secs).
 Proof.
-  intros c ind secs Hi Hwf. unfold parse_google.
-  destruct (google_roundtrip_gen c ind secs Hi Hwf (S (List.length (render_google ind secs)))) as [H _]; [lia|exact H].
+  intros o c ind secs Hi Hwf. unfold parse_google.
+  destruct (google_roundtrip_gen o c ind secs Hi Hwf (S (List.length (render_google ind secs)))) as [H _]; [lia|exact H].
 Qed.
 
 (* ---- consequences *)
 
 (* no content crosses a section boundary: section i of the parsed document is what section i parses to on its own *)
-Lemma wf_single : forall c s, wf_sec c s = true -> wf_secs c [s] = true.
-Proof. intros c s H. unfold wf_secs. simpl. rewrite H. reflexivity. Qed.
+Lemma wf_single : forall o c s, wf_sec o c s = true -> wf_secs o c [s] = true.
+Proof. intros o c s H. unfold wf_secs. simpl. rewrite H. reflexivity. Qed.
 
-Theorem google_no_leak : forall c ind secs i s, 1 <= ind -> wf_secs c secs = true -> nth_error secs i = Some s ->
+Theorem google_no_leak : forall o c ind secs i s, 1 <= ind -> wf_secs o c secs = true -> nth_error secs i = Some s ->
   exists parsed,
-    parse_google default_opts c (render_google ind secs) = POk parsed /\
+    parse_google o c (render_google ind secs) = POk parsed /\
     nth_error parsed i = Some (expect_sec c s) /\
-    parse_google default_opts c (render_google ind [s]) = POk [expect_sec c s].
+    parse_google o c (render_google ind [s]) = POk [expect_sec c s].
 Proof.
-  intros c ind secs i s Hi Hwf Hn.
+  intros o c ind secs i s Hi Hwf Hn.
   exists (expect_google c secs). split; [apply google_roundtrip; auto|]. split.
   - unfold expect_google. rewrite nth_error_map. rewrite Hn. reflexivity.
-  - assert (Hs : wf_sec c s = true).
+  - assert (Hs : wf_sec o c s = true).
     { unfold wf_secs in Hwf. apply andb_true_iff in Hwf. destruct Hwf as [Hall _].
       rewrite forallb_forall in Hall. apply Hall. eapply nth_error_In; eauto. }
-    apply (google_roundtrip c ind [s] Hi (wf_single c s Hs)).
+    apply (google_roundtrip o c ind [s] Hi (wf_single o c s Hs)).
 Qed.
 
 (* what the signature contributes: an omitted annotation is the parent's, the default value always is *)
 Definition parent_annotation (c : pctx) (n : str) : option str := match lookup_param c n with Some (a, _) => a | None => None end.
 Definition parent_default (c : pctx) (n : str) : option str := match lookup_param c n with Some (_, v) => v | None => None end.
 
-Theorem google_signature_fallback_params : forall c ind h t its k, (k = KParams \/ k = KOther) -> 1 <= ind ->
-  wf_secs c [WItems k h t its] = true ->
+Theorem google_signature_fallback_params : forall o c ind h t its k, (k = KParams \/ k = KOther) -> 1 <= ind ->
+  wf_secs o c [WItems k h t its] = true ->
   exists items,
-    parse_google default_opts c (render_google ind [WItems k h t its]) = POk [GItems k t items] /\
+    parse_google o c (render_google ind [WItems k h t its]) = POk [GItems k t items] /\
     Forall2 (fun it p =>
                p_name p = Some (oapp (w_name it)) /\
                p_ann p = match w_ann it with Some a => Some a | None => parent_annotation c (oapp (w_name it)) end /\
                p_value p = parent_default c (oapp (w_name it))) its items.
 Proof.
-  intros c ind h t its k Hk Hi Hwf.
+  intros o c ind h t its k Hk Hi Hwf.
   exists (expect_items c k (negb (List.length its <=? 1)) 0 its). split.
-  - rewrite (google_roundtrip c ind _ Hi Hwf). reflexivity.
+  - rewrite (google_roundtrip o c ind _ Hi Hwf). reflexivity.
   - assert (G : forall m i, Forall2 (fun it p =>
                p_name p = Some (oapp (w_name it)) /\
                p_ann p = match w_ann it with Some a => Some a | None => parent_annotation c (oapp (w_name it)) end /\
@@ -1324,10 +1772,10 @@ Proof.
     apply G.
 Qed.
 
-Theorem google_signature_fallback_returns : forall c ind h t its k, (k = KReturns \/ k = KYields \/ k = KReceives) -> 1 <= ind ->
-  wf_secs c [WItems k h t its] = true ->
+Theorem google_signature_fallback_returns : forall o c ind h t its k, (k = KReturns \/ k = KYields \/ k = KReceives) -> 1 <= ind ->
+  wf_secs o c [WItems k h t its] = true ->
   exists items,
-    parse_google default_opts c (render_google ind [WItems k h t its]) = POk [GItems k t items] /\
+    parse_google o c (render_google ind [WItems k h t its]) = POk [GItems k t items] /\
     forall i it, nth_error its i = Some it ->
       exists p, nth_error items i = Some p /\
         p_ann p = match w_ann it with
@@ -1335,9 +1783,9 @@ Theorem google_signature_fallback_returns : forall c ind h t its k, (k = KReturn
                   | None => annotation_from_parent c (gen_index_of k) (negb (List.length its <=? 1)) i
                   end.
 Proof.
-  intros c ind h t its k Hk Hi Hwf.
+  intros o c ind h t its k Hk Hi Hwf.
   exists (expect_items c k (negb (List.length its <=? 1)) 0 its). split.
-  - rewrite (google_roundtrip c ind _ Hi Hwf). reflexivity.
+  - rewrite (google_roundtrip o c ind _ Hi Hwf). reflexivity.
   - generalize (negb (List.length its <=? 1)). clear Hwf. intros m.
     assert (G : forall base i it, nth_error its i = Some it ->
               exists p, nth_error (expect_items c k m base its) i = Some p /\
@@ -1351,6 +1799,55 @@ Proof.
     intros i it Hn. apply (G 0 i it Hn).
 Qed.
 
+
+(* the same for a section written for any option values: the tuple is split by the NUMBER OF DOCUMENTED ITEMS, whatever
+   *_multiple_items says (with *_multiple_items=False there is one item, hence the whole annotation) *)
+Theorem google_signature_fallback_returns_modes : forall o c ind m n h t its k, (k = KReturns \/ k = KYields \/ k = KReceives) -> 1 <= ind ->
+  wf_secs o c [WRet m n k h t its] = true ->
+  exists items,
+    parse_google o c (render_google ind [WRet m n k h t its]) = POk [GItems k t items] /\
+    forall i it, nth_error its i = Some it ->
+      exists p, nth_error items i = Some p /\
+        p_ann p = match w_ann it with
+                  | Some a => Some a
+                  | None => annotation_from_parent c (gen_index_of k) (negb (List.length its <=? 1)) i
+                  end.
+Proof.
+  intros o c ind m n h t its k Hk Hi Hwf.
+  exists (expect_items c k (negb (List.length its <=? 1)) 0 its). split.
+  - rewrite (google_roundtrip o c ind _ Hi Hwf). reflexivity.
+  - generalize (negb (List.length its <=? 1)). clear Hwf. intros mm.
+    assert (G : forall base i it, nth_error its i = Some it ->
+              exists p, nth_error (expect_items c k mm base its) i = Some p /\
+                p_ann p = match w_ann it with Some a => Some a | None => annotation_from_parent c (gen_index_of k) mm (base + i) end).
+    { induction its as [|it0 r IH]; intros base i it Hn; [destruct i; discriminate|].
+      destruct i as [|i'].
+      - simpl in Hn. inversion Hn; subst. eexists. split; [reflexivity|].
+        rewrite Nat.add_0_r. destruct Hk as [->|[->| ->]]; simpl; destruct (w_ann it); reflexivity.
+      - simpl in Hn. destruct (IH (S base) i' it Hn) as [p [Hp Ha]]. exists p. split; [exact Hp|].
+        rewrite Ha. replace (S base + i') with (base + S i') by lia. reflexivity. }
+    intros i it Hn. apply (G 0 i it Hn).
+Qed.
+
+(* non-vacuity of the option modes: single-item unnamed Returns of a tuple-returning function; multi-item unnamed Yields *)
+Definition modes_opts : gopts := mkOpts false false true true true.
+Definition modes_ctx : pctx := mkCtx (Some []) (Some []) (RPlain (RPTuple (s_of "tuple[int, str]") [s_of "int"; s_of "str"])).
+Definition modes_doc : list wsec :=
+  [WText [s_of "Summary."];
+   WRet false false KReturns (s_of "Returns") None [mkW None None (s_of "Both values") [s_of "on two lines."; []; s_of "    deeper"]];
+   WRet false false KYields (s_of "Yields") (Some (s_of "the title")) [mkW None (Some (s_of "list of int")) (s_of "Numbers.") []]].
+Example modes_wf : wf_secs modes_opts modes_ctx modes_doc = true.
+Proof. vm_compute. reflexivity. Qed.
+Example modes_parsed :
+  parse_google modes_opts modes_ctx (render_google 4 modes_doc) =
+  POk [GText (s_of "Summary.");
+       GItems KReturns None [mkItem (Some []) (Some (s_of "tuple[int, str]")) (s_of "Both values
+on two lines.
+
+    deeper") None];
+       GItems KYields (Some (s_of "the title")) [mkItem (Some []) (Some (s_of "list of int")) (s_of "Numbers.") None]].
+Proof. vm_compute. reflexivity. Qed.
+
 (* ---- the witnesses of the repaired findings C13-F1 and C13-F2 are now well-formed and round-trip *)
 Definition f1_witness : list wsec :=
   [WText [s_of "Summary."];
@@ -1362,7 +1859,7 @@ Definition f2_witness : list wsec :=
    WItems KAttrs (s_of "Attributes") None
      [mkW (Some (s_of "a")) (Some (s_of "int")) (s_of "A.") []; mkW (Some (s_of "b")) None (s_of "B.") []]].
 
-Example former_gaps_wf : wf_secs no_parent f1_witness = true /\ wf_secs f2_ctx f2_witness = true.
+Example former_gaps_wf : wf_secs default_opts no_parent f1_witness = true /\ wf_secs default_opts f2_ctx f2_witness = true.
 Proof. split; vm_compute; reflexivity. Qed.
 
 Lemma google_former_gaps_roundtrip :
@@ -1391,7 +1888,7 @@ Definition sample_doc : list wsec :=
    WItems KRaises (s_of "EXCEPTIONS") None [mkW None (Some (s_of "ValueError")) (s_of "When: bad.") []];
    WText [s_of "Trailing text."]].
 
-Example sample_wf : wf_secs sample_ctx sample_doc = true.
+Example sample_wf : wf_secs default_opts sample_ctx sample_doc = true.
 Proof. vm_compute. reflexivity. Qed.
 
 Example sample_parsed :
